@@ -729,6 +729,19 @@ class Transformer:
                                 f"RULES delta offset '{rules_string}'"
                                 f"truncated to '{hm}'")
 
+                    # Check that the delta offset fits in the 4-bit field of
+                    # the extended deltaCode (-1:00 to +2:45), as is done
+                    # for the SAVE column of a Rule.
+                    delta_code = div_to_zero(
+                        rules_delta_seconds_truncated, 900) + 4
+                    if delta_code < 0 or delta_code > 15:
+                        valid = False
+                        _add_reason(
+                            removed_zones, name,
+                            f"RULES delta offset '{rules_string}' "
+                            f"too large for 4-bits")
+                        break
+
                     era['rules'] = ':'
                     era['rulesDeltaSeconds'] = rules_delta_seconds
                     era['rulesDeltaSecondsTruncated'] = \
